@@ -8,9 +8,10 @@ package sched
 
 import (
 	"bytes"
-	"fmt"
 	"reflect"
 	"runtime"
+	"strconv"
+	"strings"
 	"sync"
 	"time"
 	"unsafe"
@@ -64,18 +65,19 @@ type Sched struct {
 	seq      int
 	Calls    []Call
 	mu       sync.Mutex // protects Calls/seq bookkeeping done by workers (under raceDisable)
-	KeepBias int        // probability (percent) to keep the running worker at a yield point
+	KeepBias int        // probability (per mille) to keep the running worker at a yield point
 	Deadlock string
 	Blocked  int // times a worker was found blocked inside the library
 	Yields   int
 	Contend  int // decisions at which a guarded op was not enabled (lock contention observed)
 	running  bool
 	tick     *time.Ticker
+	Trace    []string
 	wg       sync.WaitGroup
 }
 
 func New(rng *core.Rng, plan []int) *Sched {
-	return &Sched{events: make(chan event, 64), rng: rng, Plan: plan, KeepBias: 85}
+	return &Sched{events: make(chan event, 64), rng: rng, Plan: plan, KeepBias: 950}
 }
 
 func (s *Sched) AddWorker(ops []*Op) {
@@ -207,7 +209,9 @@ func (w *worker) body(s *Sched) {
 	w.finish(s)
 }
 
-var blockedStates = []string{"[sync.Mutex.Lock", "[sync.RWMutex.", "[semacquire", "[sync.WaitGroup.Wait", "[sync.Cond.Wait"}
+// wait reasons that are specific to sync primitives ("[semacquire" is NOT listed: a goroutine that starts a GC
+// cycle or stops the world waits in a runtime semaphore for a moment and is not blocked in the library)
+var blockedStates = []string{"[sync.Mutex.Lock", "[sync.RWMutex.", "[sync.WaitGroup.Wait", "[sync.Cond.Wait"}
 
 // blockedInLibrary inspects the goroutine dump: is worker w blocked in a sync primitive?
 func blockedInLibrary(w *worker) bool {
@@ -239,7 +243,11 @@ func (s *Sched) Run() {
 	s.tick = time.NewTicker(30 * time.Millisecond)
 	defer s.tick.Stop()
 	s.wg.Add(len(s.workers))
-	defer s.wg.Wait()
+	defer func() {
+		if s.Deadlock == "" {
+			s.wg.Wait() // every worker finished; on a deadlock the workers stay parked and the run is reported as such
+		}
+	}()
 	// worker goroutines are started with the detector watching, so that everything the set-up
 	// wrote happens-before every worker; only the hand-offs below are hidden from it.
 	for _, w := range s.workers {
@@ -258,6 +266,7 @@ func (s *Sched) Run() {
 		// wake-ups of previously blocked workers
 		for _, w := range s.workers {
 			if w.state == 3 && !blockedInLibrary(w) {
+				s.trace("woke:" + strconv.Itoa(w.id))
 				w.state = 1
 				s.await(w)
 			}
@@ -288,6 +297,23 @@ func (s *Sched) Run() {
 			s.Contend++
 		}
 		if len(enabled) == 0 {
+			// nobody can be released. Before calling it a deadlock, give workers classified as blocked time to
+			// show that they were only momentarily waiting (they then park and become schedulable again).
+			progressed := false
+			for i := 0; i < 100 && !progressed; i++ {
+				<-s.tick.C
+				for _, w := range s.workers {
+					if w.state == 3 && !blockedInLibrary(w) {
+						s.trace("woke-late:" + strconv.Itoa(w.id))
+						w.state = 1
+						s.await(w)
+						progressed = true
+					}
+				}
+			}
+			if progressed {
+				continue
+			}
 			s.Deadlock = s.describe()
 			return
 		}
@@ -312,7 +338,7 @@ func (s *Sched) Run() {
 					}
 				}
 			}
-			if prev != nil && s.rng.Intn(100) < s.KeepBias {
+			if prev != nil && s.rng.Intn(1000) < s.KeepBias {
 				pick = prev
 			} else {
 				pick = enabled[s.rng.Intn(len(enabled))]
@@ -333,6 +359,7 @@ func (s *Sched) await(w *worker) {
 	for {
 		select {
 		case ev := <-s.events:
+			s.trace("ev:" + strconv.Itoa(ev.w.id) + ":" + ev.kind + ":" + ev.site + "(await " + strconv.Itoa(w.id) + ")")
 			if ev.kind == "done" {
 				ev.w.state = 2
 			} else {
@@ -345,6 +372,7 @@ func (s *Sched) await(w *worker) {
 			}
 		case <-s.tick.C:
 			if blockedInLibrary(w) {
+				s.trace("blocked:" + strconv.Itoa(w.id))
 				w.state = 3
 				s.Blocked++
 				return
@@ -353,10 +381,14 @@ func (s *Sched) await(w *worker) {
 	}
 }
 
+// Describe lists worker states (diagnostics).
+func (s *Sched) Describe() string { return s.describe() }
+
 func (s *Sched) describe() string {
-	out := ""
+	// no fmt here: its pooled printers would look like races when used under hidden synchronisation
+	out := "blocked=" + strconv.Itoa(s.Blocked) + " trace=" + strings.Join(s.Trace, ",") + "; "
 	for _, w := range s.workers {
-		out += fmt.Sprintf("worker %d state=%d site=%s; ", w.id, w.state, w.site)
+		out += "worker " + strconv.Itoa(w.id) + " state=" + strconv.Itoa(w.state) + " site=" + w.site + "; "
 	}
 	return out
 }
@@ -418,5 +450,12 @@ func And(gs ...func() bool) func() bool {
 			}
 		}
 		return true
+	}
+}
+
+func (s *Sched) trace(x string) {
+	s.Trace = append(s.Trace, x)
+	if len(s.Trace) > 40 {
+		s.Trace = s.Trace[len(s.Trace)-40:]
 	}
 }
